@@ -205,6 +205,9 @@ def _simple_task(qts):
                         except Exception:
                             pass
                         ok = str(s) == "1.5 [%s]" % u and str(a) == "1.5 2.5 [%s]" % u and s.GetFormatted() == "1.5 [%s]" % u and str(Scalar(2.5, u, c)) == "2.5 [%s]" % u
+                        # ... whatever the amount is: infinite and undefined amounts show the unit as well
+                        for special in (float("inf"), float("-inf"), float("nan"), 0.0, -1e-300, 1e300):
+                            ok = ok and str(Scalar(special, u, c)).endswith(" [%s]" % u) and ("'%s'" % u) in repr(Scalar(special, u, c)) and str(Array([special, 1.0], u, c)).endswith(" [%s]" % u)
                     if not ok:
                         part.violation(
                             "C20:simple:%s:%s" % (u, c),
